@@ -1,9 +1,27 @@
 """Source table for MANIFEST.json (python3 tools_manifest.py regenerates it)."""
 WIP = "checker under construction in this session (will be claimed or declared not applicable with its real reason)"
 CLAIMED = {}
+
+def claim(pid, engine, technique, level, note, ref):
+    CLAIMED[pid] = dict(engine=engine, technique=technique, level=level, note=note, design_ref=ref)
+    NOT_APPLICABLE.pop(pid, None)
 NOT_APPLICABLE = {f"C{i:02d}": WIP for i in range(1, 19)}
 NOT_APPLICABLE["C03"] = ("relation between an arbitrary dynamic call tree and an arbitrary selector tree, computed at run time by the "
                          "evolution of handler collections and accumulator forks; no sound static abstraction in reach bounds embeddings")
 NOT_APPLICABLE["C07"] = ("quantifies over call trees and runtime data flow through Total accumulator forks; its only structural clause "
                          "(exit hook on every way out) is decided under C06 rule R06.1")
 SOURCE_COMMITS = []
+
+claim("C12", "P", "AST normal-form comparison tables + wrapper-guard agreement (syntactic dataflow)",
+      "Decides structural clauses only: each stock comparison predicate is the single comparison its name states (holds for all "
+      "integers by Python semantics), Range's rejection set and argument routing, one capture check wrapping intercept/trigger/close "
+      "under one condition, check_captures universal over captured values. A necessary condition of the property, decided for all inputs; "
+      "modulo arithmetic, throttle and end-to-end filtering are not decided.",
+      "Trusted: Python comparison semantics; handlers are only invoked through the wrapped slots. Shapes outside the recognised normal forms give ANALYSIS-ERROR (exit 2), not a verdict.",
+      "DESIGN.md section 6, C12")
+claim("C15", "P", "constant-folded priority-tower sign matrix vs calibrated sign obligations; field/table agreement; interning dataflow",
+      "Decides the structural facts the documented equivalences rest on (interning totality and immutability, init/clone/defaults field "
+      "agreement, 67 load-bearing precedence sign obligations, action-table coverage, whitespace-insensitive lexer, focus = tag 1). "
+      "The desugaring equalities of evaluator outputs themselves are not decided.",
+      "Trusted: sign obligations validated by single-entry flips against the pinned parser (selftest/calibration); the operator-precedence loop consumes only the sign (checked structurally).",
+      "DESIGN.md section 6, C15")
